@@ -30,7 +30,7 @@ ASSUMPTIONS = [
 ]
 LEVEL_SCOPE = ("Decides the listed clauses for every order type (piece) over real arithmetic, reporting only definite disagreements; floating-point "
                "rounding and the clauses listed as undecided are not decided.")
-FLOORS = {"K1": 16, "F": 16, "L1": 16, "L2": 16, "L3": 16, "L4": 7, "L5": 16, "L6": 15, "V1": 16}
+FLOORS = {"K1": 16, "F": 16, "L1": 16, "L2": 16, "L3": 16, "L4": 7, "L5": 16, "L6": 15, "V1": 16, "V8": 16}
 
 # documented formulas: cases in order (first match wins), over a, b
 NORMS: dict[str, dict] = {
@@ -149,6 +149,10 @@ def run(check: Check) -> None:
 
         if not kernel_purity(check, fn, "K1", f"{name}.compute/pure", set()):
             continue
+        from .common import coerce_first
+
+        if not coerce_first(check, fn, "V8", f"{name}.compute/coerce-first"):
+            continue  # the operands are not the values the interpreters assume
         fns[name] = fn
         a_, b_ = ("param", fn.params[1].name), ("param", fn.params[2].name)
         code[name] = substitute(flatten(p, return_term(p, c, "compute")), {a_: A, b_: B})
